@@ -636,8 +636,8 @@ func (ps *PathSum) exec(s *psState, f *psFrame) []*psOutcome {
 				}
 				if strings.Contains(addr, ".") && !strings.Contains(addr, "complit") && !strings.Contains(addr, "varargs") {
 					ps.emit(s, f, x.Pos(), "FieldStore", addr[1:], v)
-				} else if strings.Contains(addr, ".") {
-					// fields of a composite literal under construction
+				} else if strings.Contains(addr, ".") || (strings.Contains(addr, "varargs") && strings.Contains(addr, "[")) {
+					// fields of a composite literal under construction, elements of a variadic argument list
 					ps.emit(s, f, x.Pos(), "LitStore", addr[1:], v)
 				}
 			} else {
